@@ -27,6 +27,9 @@ for name in names:
         else:
             notes.append("%s: rc=%d %s" % (prop, p.returncode, out.strip().splitlines()[-1][:200] if out.strip() else ""))
         print(name, prop, "rc=%d" % p.returncode, cls[:1], flush=True)
+    meta["checked_at"] = {"repo": subprocess.run(["git", "-C", "/repo", "rev-parse", "--short", "HEAD"], capture_output=True, text=True).stdout.strip(),
+                          "verif": subprocess.run(["git", "-C", V, "rev-parse", "--short", "HEAD"], capture_output=True, text=True).stdout.strip(),
+                          "time": time.strftime("%Y-%m-%dT%H:%M:%SZ", time.gmtime())}
     meta["detected_by"] = det or None
     meta["not_detected_by"] = missed
     if notes:
@@ -39,7 +42,8 @@ mp = os.path.join(V, "seeded", "MATRIX.json")
 if os.path.exists(mp):
     allrows = json.load(open(mp))
 for name, own, det, missed, notes in rows:
-    allrows[name] = {"property": own, "detected_by": det, "not_detected_by": missed, "notes": notes}
+    allrows[name] = {"property": own, "detected_by": det, "not_detected_by": missed, "notes": notes,
+                     "neutralised": json.load(open(os.path.join(V, "seeded", name, "meta.json"))).get("neutralised", "")}
 json.dump(allrows, open(mp, "w"), indent=1)
 with open(os.path.join(V, "seeded", "MATRIX.md"), "w") as f:
     f.write("| seed | property | detected by (tier) | first class | not detected by |\n|---|---|---|---|---|\n")
@@ -47,4 +51,4 @@ with open(os.path.join(V, "seeded", "MATRIX.md"), "w") as f:
         r = allrows[name]
         f.write("| %s | %s | %s | %s | %s |\n" % (name, r["property"], ", ".join("%s (%s)" % (d["check"], d["tier"]) for d in r["detected_by"]) or "**none**",
                                               (r["detected_by"][0]["classes"][0][:90] if r["detected_by"] and r["detected_by"][0]["classes"] else ""),
-                                              ", ".join(r["not_detected_by"]) + ("; " + "; ".join(r["notes"]) if r["notes"] else "")))
+                                              ", ".join(r["not_detected_by"]) + ("; " + "; ".join(r["notes"]) if r["notes"] else "") + (" [neutralised: " + r.get("neutralised", "")[:60] + "]" if r.get("neutralised") else "")))
